@@ -714,7 +714,9 @@ func pairs(emit func(caseIn), shard, shards int) {
 	edit(func(q *provx.Pipe) { q.Conns[0].Src = false })
 	edit(func(q *provx.Pipe) { q.Conns = q.Conns[1:] })
 	edit(func(q *provx.Pipe) { q.Conns[0], q.Conns[1] = q.Conns[1], q.Conns[0] })
-	edit(func(q *provx.Pipe) { q.Conns = append(q.Conns, provx.Conn{ID: 3, Src: false, Plugin: 1, Name: 3, Procs: []provx.Proc{pr(1, 1, 0, 1, 0)}}) })
+	edit(func(q *provx.Pipe) {
+		q.Conns = append(q.Conns, provx.Conn{ID: 3, Src: false, Plugin: 1, Name: 3, Procs: []provx.Proc{pr(1, 1, 0, 1, 0)}})
+	})
 	edit(func(q *provx.Pipe) {
 		ps := q.Conns[0].Procs
 		if len(ps) > 1 {
